@@ -371,6 +371,7 @@ def run(ck):
     for i in badb[:3]:
         ck.violation("batch/framing/model-disagrees", "batch framing model and the real serializer disagree",
                      {"case": bcases[i][:2000], "correspondence": "batch_case_ok"}, found_input=False)
+    history_stage(ck, good)
     dflt = sorted(k[len("defaulted:"):] for k in ck.hist if k.startswith("defaulted:"))
     if dflt:
         ck.notes.append("not violations (absent == default): falsy attribute values that come back as None after the round trip "
@@ -380,10 +381,138 @@ def run(ck):
         report_broken_obligations(ck, broken)
 
 
+def mangle(rng, data, kind):
+    if kind == "truncated":
+        return data[:rng.randrange(0, len(data))] if data else b""
+    if kind == "extended":
+        return data + bytes(rng.getrandbits(8) for _ in range(rng.randint(1, 6)))
+    if kind == "garbage":
+        return bytes(rng.getrandbits(8) for _ in range(rng.choice([1, 2, 3, 5, 9, 17])))
+    if kind == "bitflip":
+        b = bytearray(data); i = rng.randrange(len(b)); b[i] ^= 1 << rng.randrange(8); return bytes(b)
+    if kind == "empty":
+        return b""
+    if kind == "prefix-of-two":        # a valid message followed by the first half of another one
+        return data + data[:max(1, len(data) // 2)]
+    raise ValueError(kind)
+
+
+MALFORMED = ["truncated", "extended", "garbage", "bitflip", "empty", "prefix-of-two"]
+
+
+def history_stage(ck, good):
+    """Serializer objects live as long as a connection: unserialize must be a function of its argument.  Histories
+    on long-lived serializer objects (two per configuration, batched and unbatched of one family interleaved) mixing
+    valid serialized messages with truncated / extended / garbage / bit-flipped octet strings."""
+    rng = ck.rng("histories")
+    quick = ck.quick()
+    msgs = rng.sample(good, min(len(good), 10 if quick else 40))
+    rs = ck.run_impl("wamp_messages.py", {"op": "serialize", "cases": [
+        {"cls": c["cls"], "attrs": [[k, W.enc(v)] for k, v in c["attrs"].items()], "via": VIA} for c in msgs]}, timeout=600)["results"]
+    hists = []
+    for sn in VIA:
+        for h in range(8 if quick else 80):
+            steps, meta = [], []
+            for _ in range(rng.randint(6, 16 if quick else 30)):
+                cfg = sn + (".batched" if rng.random() < 0.5 else "")
+                inst = rng.randint(0, 1)
+                i = rng.randrange(len(msgs))
+                data = bytes.fromhex(rs[i][cfg])
+                u = rng.random()
+                if u < 0.5:
+                    kind, exp = "valid", [i]
+                    if cfg.endswith(".batched") and rng.random() < 0.4:
+                        j = rng.randrange(len(msgs)); data += bytes.fromhex(rs[j][cfg]); exp = [i, j]
+                else:
+                    kind, exp = rng.choice(MALFORMED), None
+                    data = mangle(rng, data, kind)
+                steps.append([cfg, inst, data.hex()]); meta.append((kind, exp))
+            hists.append({"steps": steps, "meta": meta, "fresh": len(hists) + 1})
+    # named: the shortest shapes (one malformed call, then valid ones on the same and on the other object)
+    for sn in VIA:
+        for cfg in (sn, sn + ".batched"):
+            for kind in MALFORMED:
+                d0 = bytes.fromhex(rs[0][cfg])
+                steps = [[cfg, 0, mangle(rng, d0, kind).hex()]] + [[cfg, k % 2, rs[k % len(msgs)][cfg]] for k in range(4)]
+                meta = [(kind, None)] + [("valid", [k % len(msgs)]) for k in range(4)]
+                hists.append({"steps": steps, "meta": meta, "fresh": len(hists) + 1})
+
+    def execute(hs):
+        return ck.run_impl("wamp_messages.py", {"op": "history", "cases": [{"steps": h["steps"], "fresh": h["fresh"]} for h in hs]}, timeout=1500)["results"]
+
+    def verdict(h, outs):
+        """first failing step of one history: (index, key-suffix, text) or None"""
+        last_bad = "start"
+        for i, ((cfg, inst, hx), (kind, exp), o) in enumerate(zip(h["steps"], h["meta"], outs)):
+            if kind == "valid":
+                why = None
+                if o["k"] != "ok":
+                    why = (o["cls"], f"raises {o['cls']}")
+                elif o["n"] != len(exp):
+                    why = ("wrong-count", f"{o['n']} messages instead of {len(exp)}")
+                else:
+                    for j, m in zip(exp, o["msgs"]):
+                        if m["cls"] != rs[j]["cls"] or any(kd != "defaulted" for _, kd, _, _ in compare_attrs(rs[j]["orig"], m["attrs"])):
+                            why = ("different-message", f"comes back as a different message ({m['cls']})")
+                if why:
+                    return i, f"history/{cfg}/valid-after-{last_bad}/{why[0]}", \
+                        f"{cfg}: a valid serialized message {why[1]} after a {last_bad} octet string was fed to a serializer object before"
+            else:
+                if o["k"] == "exc" and o["cls"] != "ProtocolError":
+                    return i, f"history/{cfg}/{kind}/{o['cls']}", f"{cfg}: a {kind} octet string raises {o['cls']}"
+                last_bad = kind
+        return None
+
+    outs = execute(hists)
+    seen_payload = {}
+    reported = set()
+    for h, ho in zip(hists, outs):
+        for (cfg, inst, hx), (kind, exp), o in zip(h["steps"], h["meta"], ho):
+            ck.evaluations += 1
+            ck.bump(f"history:{kind}:{o['k'] if o['k'] == 'ok' else o['cls']}")
+            summ = json.dumps([o["k"], o.get("cls"), o.get("n"), [m["attrs"] for m in o.get("msgs", [])]])
+            prev = seen_payload.setdefault((cfg, hx), summ)
+            if prev != summ and ("nf", cfg) not in reported:
+                reported.add(("nf", cfg))
+                ck.violation(f"history/{cfg}/not-a-function-of-its-argument",
+                             f"{cfg}: the same octet string unserializes differently depending on earlier calls",
+                             {"cfg": cfg, "hex": hx, "history": h["steps"]}, found_input=True)
+        v = verdict(h, ho)
+        if v and v[1] not in reported:
+            i, key, text = v
+            reported.add(key)
+            # shrink: shortest suffix ending at the failing step that still fails the same way
+            best = h["steps"][:i + 1], h["meta"][:i + 1]
+            trial = []
+            for k in (2, 3, 5, 8):
+                if k <= i:
+                    trial.append({"steps": h["steps"][i + 1 - k:i + 1], "meta": h["meta"][i + 1 - k:i + 1], "fresh": 10 ** 6 + len(trial) + 1000 * len(reported)})
+            if trial:
+                for t, to in zip(trial, execute(trial)):
+                    tv = verdict(t, to)
+                    if tv and tv[1].split("/")[-1] == key.split("/")[-1]:
+                        best = t["steps"], t["meta"]
+                        break
+            ck.violation(key, text, {"history": best[0], "kinds": [m[0] for m in best[1]]}, found_input=True)
+    ck.note_cases(0, (json.dumps(h["steps"]) for h in hists))
+    ck.log(f"histories: {len(hists)} call sequences ({sum(len(h['steps']) for h in hists)} unserialize calls) on long-lived serializer objects, "
+           f"{len([k for k in reported if k[0] != 'nf'])} failing")
+
+
 def replay(path):
     r = json.load(open(path))
     rp = r["replay"]
     ck = vlib.Check("C03", "quick", 1)
+    if "history" in rp:
+        outs = ck.run_impl("wamp_messages.py", {"op": "history", "cases": [{"steps": rp["history"], "fresh": 1}]})["results"][0]
+        rc = 0
+        for (cfg, inst, hx), o, kind in zip(rp["history"], outs, rp.get("kinds", ["?"] * len(outs))):
+            print(f"  {cfg} object {inst} <- {kind:14s} {hx[:60]}{'...' if len(hx) > 60 else ''} : "
+                  f"{'ok ' + str([m['cls'] for m in o['msgs']]) if o['k'] == 'ok' else 'raises ' + o['cls']}")
+            if kind == "valid" and o["k"] != "ok":
+                rc = 1
+        print("model: unserialize is a function of its argument (Props/C03.v C03_unserialize_stateless); every 'valid' step must be ok")
+        return rc
     if "attrs" not in rp:
         print(json.dumps(rp)[:2000]); return 1
     res = ck.run_impl("wamp_messages.py", {"op": "roundtrip", "cases": [{"cls": rp["cls"], "attrs": rp["attrs"], "via": VIA}]})["results"][0]
